@@ -536,3 +536,37 @@ class DiscoverExtent:
         return (forall_int(lambda a, b: implies((a, b) in g_table and g_table[(a, b)] != 6, a < w and b < h))
                 and exists_int(lambda a, b: (a, b) in g_table and g_table[(a, b)] != 6 and a == w - 1)
                 and exists_int(lambda a, b: (a, b) in g_table and g_table[(a, b)] != 6 and b == h - 1))
+
+
+# ---- build_machine: the nominal chip of the model ------------------------------------------------------------------------------
+CHIPINFO3 = TRec("ChipInfo", num_cores=TInt(0, 18), largest_free_sdram_block=TInt(0, 2 ** 32), largest_free_sram_block=TInt(0, 2 ** 32))
+SYSINFO3 = TMap(TTuple(TInt(0, 255), TInt(0, 255)), CHIPINFO3)
+
+
+@contract("rig/place_and_route/utils.py::build_machine@seq:0:3")
+class BuildMachineNominal:
+    """the nominal chip of the machine model has, of each quantity on its own, the LARGEST amount any responding chip reports
+    (so no chip has more than the nominal: the exceptions can only take away), and nothing when no chip responded"""
+    properties = ("C14",)
+    params = dict(system_info=SYSINFO3)
+    fragment_result = ("max_cores", "max_sdram", "max_sram")
+    fragment_head = "try:"
+    raises = {"ValueError": None}
+
+    def raises_ValueError(system_info):
+        return False          # (max() of nothing raises it inside the three try blocks; it never escapes)
+
+    def native(system_info):
+        raise __import__("pyvc.replay", fromlist=["OutsideHarness"]).OutsideHarness()
+
+    def ensures_each_nominal_quantity_is_the_largest_reported(system_info, result):
+        empty = not exists_int(lambda a, b: (a, b) in system_info)
+        return (implies(empty, result == (0, 0, 0))
+                and implies(not empty,
+                            forall_int(lambda a, b: implies((a, b) in system_info,
+                                                            system_info[(a, b)].num_cores <= result[0]
+                                                            and system_info[(a, b)].largest_free_sdram_block <= result[1]
+                                                            and system_info[(a, b)].largest_free_sram_block <= result[2]))
+                            and exists_int(lambda a, b: (a, b) in system_info and system_info[(a, b)].num_cores == result[0])
+                            and exists_int(lambda a, b: (a, b) in system_info and system_info[(a, b)].largest_free_sdram_block == result[1])
+                            and exists_int(lambda a, b: (a, b) in system_info and system_info[(a, b)].largest_free_sram_block == result[2])))
